@@ -145,14 +145,14 @@ class System:
                 import signal
 
                 def on_alarm(signum, frame):
-                    raise TimeoutError('extend(self) did not return within 5 s')
-                old = signal.signal(signal.SIGALRM, on_alarm)
-                signal.setitimer(signal.ITIMER_REAL, 5)
+                    raise TimeoutError('extend(self) did not return within 3 s of CPU time')
+                old = signal.signal(signal.SIGVTALRM, on_alarm)
+                signal.setitimer(signal.ITIMER_VIRTUAL, 3)
                 try:
                     r = a.extend(a)
                 finally:
-                    signal.setitimer(signal.ITIMER_REAL, 0)
-                    signal.signal(signal.SIGALRM, old)
+                    signal.setitimer(signal.ITIMER_VIRTUAL, 0)
+                    signal.signal(signal.SIGVTALRM, old)
             elif k == 'insert':
                 r = a.insert(op[1], self.group(op[2], op[3]))
             elif k == 'remove':
@@ -242,6 +242,9 @@ class System:
             return None if o == e else ({'state': e}, {'state': o})
         exp = self.model_step(model, op)
         obs = self.impl_step(impl, op)
+        if obs == ('exc', 'TimeoutError'):
+            # the list is unbounded garbage by now: report the non-termination itself, not the state
+            return ({'ret': list(exp)}, {'ret': 'did not return within 3 s of CPU time'})
         if exp[0] == 'grp' and obs[0] == 'grp':
             same = exp == obs
         elif exp[0] == 'args':
